@@ -4,9 +4,18 @@ Call histories over several memoize instances (all wrapping the same body) that 
 are executed on the real decorator; every call is observed (return value, execution counter, thunk
 counter, keys of _cache in order, cache_size, files in the instance's folder) and the observed trace is
 (a) judged by the L0 acceptor Spec/Memo.v (Run/SC20.oracle) and (b) compared with the L1 model
-Model/Memo.v built on the kernels regenerated from _memoize.py (Run/RC20.model_agrees)."""
+Model/Memo.v built on the kernels regenerated from _memoize.py (Run/RC20.model_agrees).
+
+The key derivation is checked separately for every argument class and form (with and without thunks):
+(a) L0: the implementation gives two argument lists the same key exactly when Spec/MemoKey.call_eqvb says they are
+the same argument list -- all pairs (Run/SC20.key_matrix_ok), and every form against form 0 of its class;
+(b) L1: the text Model/MemoKey.memkey_text computes inside Coq equals the text the implementation hashes
+(recomputed here with the instance's own _serialize_args / _serialize_kwargs; its md5 must be _memkey's result)."""
+import hashlib
+import math
 import os
 import pickle
+import re
 import shutil
 import sys
 import warnings
@@ -14,6 +23,14 @@ import warnings
 import coqlit as L
 
 ONE_GIGABYTE = 1024 ** 3
+# keyword / dict insertion order is varied inside one history (the key no longer depends on it: repaired defect D18);
+# VERIF_C20_KWORDER=0 restricts every history to one order
+KWORDER = os.environ.get('VERIF_C20_KWORDER', '1') != '0'
+# Key collisions of the UNCHANGED tree, outside the alphabet of the key theorems (reported, not in the default stream):
+#  - a str made of the two lone surrogates U+D800 U+DC00 and the str chr(0x10000) are serialised alike by
+#    json.dumps(ensure_ascii=True) ("\\ud800\\udc00"), so f(a); f(b) returns f(a) twice;
+#  - in lazy mode a callable whose __name__ is true / false / null is keyed like the value True / False / None.
+INCLUDE_PENDING_FINDINGS = False
 XKEYS = {'k1': -1, 'k2': -2}
 UNKNOWN_VALUE = 99
 UNKNOWN_KEY = -99
@@ -91,6 +108,33 @@ def bases():
         40: [((_dm({'a': [1, float('nan')]}),), {}, '')],
         41: [((_dm({'a': [1, None]}),), {}, '')],
         42: [((_dm({'a': [1, 'None']}),), {}, '')],
+        # keyword / dict order at several levels; keys whose repr() order differs from their own order
+        # ('a' < 'a!' but "'a!'" < "'a'"), upper case before lower case
+        43: [(({'a': 1, 'a!': 2, 'B': 3},), {}, ''), (({'B': 3, 'a!': 2, 'a': 1},), {}, 'kwperm'),
+             (({'a!': 2, 'a': 1, 'B': 3},), {}, 'kwperm')],
+        44: [((), {'x': 1, 'y': [1, {'p': 1, 'q': 2}], 'z': None}, ''),
+             ((), {'z': None, 'y': (1, {'q': 2, 'p': 1}), 'x': 1}, 'kwperm'),
+             ((), {'y': [1, {'q': 2, 'p': 1}], 'x': 1, 'z': None}, 'kwperm')],
+        45: [((), {'x': 1, 'y': [1, {'p': 2, 'q': 1}], 'z': None}, ''),
+             ((), {'z': None, 'x': 1, 'y': (1, {'q': 1, 'p': 2})}, 'kwperm')],
+        # strings that need escaping in JSON and / or in repr(), and strings that imitate the separators of the
+        # hashed text (outside the alphabet of the injectivity theorem, inside the model of the serialisation)
+        46: [(('a"b', "c'd", 'e\\f', 'tab\there', 'nl\nx', '\x7f\x01'), {}, '')],
+        47: [(("', '",), {}, '')],
+        48: [(('', ''), {}, '')],
+        49: [(("1', '2",), {}, '')],
+        50: [((-0.0,), {}, '')],
+        51: [((1e22, 1.5e-07, -2.5), {}, '')],
+        52: [((_dm({'a': ["it's", 'caf\u00e9']}),), {}, '')],
+        53: [(([1, 2], 3), {}, ''), (((1, 2), 3), {}, '')],
+        54: [(([1], [2, 3]), {}, ''), (((1,), (2, 3)), {}, '')],
+        55: [((), {'a': {'b': 1}}, '')],
+        56: [(({'a': {'b': 1}},), {}, '')],
+        57: [(({'a': 1},), {'b': 2}, '')],
+        # equal values under different keys, written in two orders (a sort that does not look at the key alone
+        # leaves them in insertion order)
+        58: [((), {'p': 1, 'q': 1}, ''), ((), {'q': 1, 'p': 1}, 'kwperm')],
+        59: [(({'p': [1], 'q': [1], 'r': (1,)},), {}, ''), (({'r': [1], 'q': (1,), 'p': (1,)},), {}, 'kwperm')],
     }
     return B
 
@@ -128,6 +172,80 @@ def canon(x):
     if callable(x):
         return ['callable', getattr(x, '__name__', '?')]
     return ['other', repr(x)]
+
+
+# ------------------------------------------------------------------ key derivation: literals and accessors
+RESERVED_NAMES = ('true', 'false', 'null', '__nameless__')
+
+
+def prehash_text(g, args, kwargs):
+    """The text _memkey hashes, recomputed with the instance's own serialisers (the accessor /repo does not have)."""
+    return repr([g._fnc.__name__, g._serialize_args(args), g._serialize_kwargs(kwargs)])
+
+
+def _plain(s):
+    return all(0x20 <= ord(c) <= 0x7e for c in s)
+
+
+def in_alphabet_arg(x):
+    """The harness' reading of Model/MemoKey.arg_okb (the alphabet on which key injectivity is proved)."""
+    from datamatrix import DataMatrix, convert as cnv
+    if x is None or isinstance(x, (bool, int)):
+        return True
+    if isinstance(x, float):
+        return math.isfinite(x)
+    if isinstance(x, str):
+        return _plain(x)
+    if isinstance(x, (list, tuple)):
+        return all(in_alphabet_arg(v) for v in x)
+    if isinstance(x, dict):
+        return all(isinstance(k, str) and _plain(k) and in_alphabet_arg(v) for k, v in x.items())
+    if isinstance(x, DataMatrix):
+        t = cnv.to_json(x)
+        return t.startswith('{') and _plain(t)
+    if callable(x):
+        n = getattr(x, '__name__', None)
+        return n is None or (re.fullmatch(r'[A-Za-z_][A-Za-z0-9_]*', n) is not None and n not in RESERVED_NAMES)
+    return False
+
+
+def in_alphabet(name, args, kwargs):
+    return _plain(name) and in_alphabet_arg(tuple(args)) and in_alphabet_arg(dict(kwargs))
+
+
+def arg_lit(x, for_model, floats):
+    """Python value -> Spec/MemoKey.arg.  A DataMatrix is its content text: for the L1 model the text of
+    convert.to_json (what the implementation serialises), for the L0 oracle a description built by canon() here,
+    independent of convert.to_json."""
+    from datamatrix import DataMatrix, convert as cnv
+    if isinstance(x, bool):
+        return '(ABool %s)' % L.boolean(x)
+    if isinstance(x, int):
+        return '(AInt %s)' % L.z(x)
+    if isinstance(x, float):
+        floats[L.fl(x)] = repr(x)
+        return '(AFloat %s)' % L.fl(x)
+    if isinstance(x, str):
+        return '(AStr %s)' % L.string(x)
+    if x is None:
+        return 'ANone'
+    if isinstance(x, (list, tuple)):
+        return '(%s %s)' % ('AList' if isinstance(x, list) else 'ATuple', L.lst(arg_lit(v, for_model, floats) for v in x))
+    if isinstance(x, dict):
+        if not all(isinstance(k, str) for k in x):
+            raise ValueError('dict key outside the alphabet')
+        return '(ADict %s)' % L.lst('(%s, %s)' % (L.string(k), arg_lit(v, for_model, floats)) for k, v in x.items())
+    if isinstance(x, DataMatrix):
+        return '(ADM %s)' % L.string(cnv.to_json(x) if for_model else repr(canon(x)))
+    if callable(x):
+        n = getattr(x, '__name__', None)
+        return '(AFun %s)' % ('None' if n is None else '(Some %s)' % L.string(n))
+    raise ValueError('argument outside the alphabet: %r' % (x,))
+
+
+def call_lit(args, kwargs, for_model, floats):
+    return '(mkcall %s %s)' % (L.lst(arg_lit(v, for_model, floats) for v in args),
+                               L.lst('(%s, %s)' % (L.string(k), arg_lit(v, for_model, floats)) for k, v in kwargs.items()))
 
 
 class World(object):
@@ -188,7 +306,7 @@ class World(object):
 
     def build_keymap(self, g):
         """memkey -> class id for the whole alphabet; checks the key derivation is a function of the class
-        and injective on classes (kwperm forms are left out here: see D18 in the module docstring of the report)."""
+        (all forms, keyword/dict order permutations included) and injective on classes."""
         problems = []
         km = {}
         per_class = {}
@@ -198,9 +316,10 @@ class World(object):
                 cls = b + 100 * t
                 for fi, (_a, _k, flag) in enumerate(forms):
                     a, k = self.form(cls, fi)
-                    mk = g._memkey(*a, **k)
-                    if flag == 'kwperm':
-                        km.setdefault(mk, cls)
+                    try:
+                        mk = g._memkey(*a, **k)
+                    except Exception as e:      # noqa: BLE001  (an observation, not a crash)
+                        problems.append('deriving the key of class %d raised %s: %s' % (cls, type(e).__name__, e))
                         continue
                     if cls in per_class and per_class[cls] != mk:
                         problems.append('equal argument lists of class %d get different keys' % cls)
@@ -234,29 +353,51 @@ class C20:
     rule = ('seeded call histories (4-12 operations quick, 10-40 thorough) over 1-4 memoize instances wrapping one '
             'body: every combination of persistent x key(None/explicit) x lazy x max_size(1 GiB, 0, below one value, '
             '1-4 values) is used as first instance, further instances share or do not share one of 3 temp folders; '
-            'operations: call with one of 43 argument classes (int/float/bool/str/None scalars, positional pairs, '
-            'lists vs tuples (same class), nested containers, dicts, keyword forms, unicode, DataMatrix values equal / '
-            'differing in one cell / one column name / row order / column type), thunk variants in lazy instances, '
-            'clear(), new instance (constructed directly or through memoize(**options)(fnc)); the returned object is '
-            'mutated after every call (isolation). Observed per call: value id, execution-counter delta, thunk-counter '
-            'delta, _cache keys in order, cache_size, files of the folder. non-trivial = the history contains a hit and '
-            'a run; distinct by (options, operations). A history uses one keyword/dict insertion order only '
-            '(see assumptions)')
+            'operations: call with one of 60 argument classes (int/float/bool/str/None scalars, positional pairs, '
+            'lists vs tuples (same class), nested containers, dicts, keyword forms and dicts written in several orders '
+            '(same class), unicode, strings that need escaping or imitate the separators of the hashed text, -0.0, '
+            'DataMatrix values equal / differing in one cell / one column name / row order / column type / NaN vs None), '
+            'thunk variants in lazy instances, clear(), new instance (constructed directly or through '
+            'memoize(**options)(fnc)); the returned object is mutated after every call (isolation). Observed per call: '
+            'value id, execution-counter delta, thunk-counter delta, _cache keys in order, cache_size, files of the '
+            'folder. non-trivial = the history contains a hit and a run; distinct by (options, operations). '
+            'Key derivation: for every class, form and thunk variant (174 argument lists) the text hashed by _memkey '
+            '(recomputed with the instance\'s own serialisers, its md5 compared with _memkey) is compared with the text '
+            'the L1 model computes inside Coq, and key equality is compared with the L0 relation "same argument list" '
+            'for all pairs at once and for every form against form 0 of its class')
     trusted_base = [
         'Coq 8.16.1 kernel (coqc; vm_compute for evaluating cases; no native_compute)',
-        'translator /verif/translate/gen_memo.py (+ py2coq.py): _call_without_arguments, _read_cache, _write_cache '
-        '-> Gen/KMemo.v incl. its pinned effect statements',
-        'harness/c20.py (runner, value/key identification, isolation probe, key-injectivity check on the alphabet), '
+        'translator /verif/translate/gen_memo.py (+ py2coq.py): _call_without_arguments, _read_cache, _write_cache, '
+        '_serialize_obj (dispatch chain), the sort key of _serialize_kwargs, the list hashed by _memkey '
+        '-> Gen/KMemo.v incl. its pinned statements (effects, comprehensions, json_tricks.dumps / to_json / repr / md5 calls)',
+        'harness/c20.py (runner, value/key identification, isolation probe, literals of the argument lists, the '
+        'accessor that recomputes the hashed text, canon() as the content of a DataMatrix for the L0 relation), '
         'Run/SC20.v, Run/RC20.v',
-        'modelled, not verified: pickle round trip (values are immutable in the model; isolation is probed), '
-        'hashlib.md5 / json_tricks-or-shim / to_json as an injective key on the alphabet (checked per run), '
-        'sys.getsizeof(pickle.dumps(v)) as size, OrderedDict, os.path.exists/remove/open on the cache folder',
+        'modelled, not verified (tied by the correspondence on every argument class): what callable / isinstance / '
+        'hasattr answer for the objects of the alphabet, json.dumps on scalars (float.__repr__ is supplied by the '
+        'harness per float), unicode_repr / list_repr / dict_repr, stability and code-point order of sorted(); '
+        'pickle round trip (loads (dumps v) = v; isolation of returned objects is probed, a by-value model cannot '
+        'express aliasing), hashlib.md5 (injective on the hashed texts: hypothesis md5_injective), '
+        'convert.to_json determines the table (C17_json_injective), sys.getsizeof(pickle.dumps(v)) as size, '
+        'OrderedDict, os.path.exists/remove/open on the cache folder',
     ]
     assumptions = [
         'all instances of a history wrap the same function; explicit keys differ from every argument-derived key',
         'max_size >= 0; no .tar.xz archives and no old-style DataMatrix pickles in the cache folder; debug=False',
-        'keyword order / dict insertion order is NOT varied inside one history in the default streams: the '
-        'implementation keys f(a=1,b=2) and f(b=2,a=1) differently (D18, reported); set VERIF_C20_KWORDER=1 to include it',
+        'Section hypotheses that appear as premises of the key theorems: md5_injective (md5 is injective on the '
+        'hashed texts); float_repr_inj and float_repr_shape (float.__repr__ is injective on finite floats and '
+        'writes digits, sign, point, exponent only, starting with a digit or a minus sign, with a point or an '
+        'exponent); body_respects (the wrapped function does not tell a tuple from a list of equal content, nor one '
+        'keyword order from another: the quantifier counts them as the same argument); loads_dumps (pickle round '
+        'trip, only for the simulation between the serialised-store model and the by-value model)',
+        'alphabet of key_injective / key_complete (call_okb): every string (str arguments, dict keys, keyword '
+        'names, function name, JSON text of a DataMatrix) is printable ASCII 32..126, quote characters and '
+        'backslash included; finite floats; dict keys are strings; callable names are identifiers other than true / '
+        'false / null / __nameless__. Strings with control or non-ASCII characters are inside the model and the '
+        'correspondence (5 of the 174 argument lists), not inside the injectivity proof; json.dumps writes a lone '
+        'surrogate pair and the astral character alike (a genuine collision outside the alphabet)',
+        'a DataMatrix enters the L0 relation by its content as described by the harness (length, column names in '
+        'order, column types, cells) and the L1 model by the text of convert.to_json (which also holds the row ids)',
         'a non-persistent instance sharing a folder with persistent ones deletes the file of the re-executed key on '
         'clear(): modelled (L0 and L1) as the implementation does it',
     ]
@@ -302,9 +443,13 @@ class C20:
                         continue
                     g, o = w.insts[i], w.opts[i]
                     a, k = w.form(cls, fi)
-                    if o['key'] is None and w.keymap.get(g._memkey(*a, **k)) != cls \
-                            and (self.B_flag(w, cls, fi) != 'kwperm' or os.environ.get('VERIF_C20_KWORDER') != '1'):
-                        pyfail.append('the key of class %d is not the key this class had on another instance' % cls)
+                    if o['key'] is None:
+                        try:
+                            same = w.keymap.get(g._memkey(*a, **k)) == cls
+                        except Exception:       # noqa: BLE001  (the call below raises as well and is judged there)
+                            same = True
+                        if not same:
+                            pyfail.append('the key of class %d is not the key this class had on another instance' % cls)
                     c0, f0 = w.count[0], w.forced[0]
                     try:
                         r = g(*a, **k)
@@ -347,8 +492,10 @@ class C20:
         return forms[fi % len(forms)][2]
 
     def rerun(self, inp):
+        if 'keytext' in inp or 'keypair' in inp or 'keymatrix' in inp:
+            return self._key_rerun(inp)
         if 'probe' in inp:
-            for c in self._lazy_nameless_probes():
+            for c in self._lazy_nameless_probes() + (self._pending_probes() if inp['probe'].startswith('pending_') else []):
                 if c['input']['probe'] == inp['probe']:
                     return c
             return None
@@ -438,7 +585,7 @@ class C20:
     def _okform(self, b, fi):
         """form index fi of base b, unless that form is a keyword/dict-order permutation (D18) and those are off"""
         forms = self._B[b]
-        if forms[fi % len(forms)][2] == 'kwperm' and os.environ.get('VERIF_C20_KWORDER') != '1':
+        if forms[fi % len(forms)][2] == 'kwperm' and not KWORDER:
             return 0
         return fi % len(forms)
 
@@ -458,7 +605,7 @@ class C20:
 
     def generate(self, rng, tier):
         self._prepare()
-        both = os.environ.get('VERIF_C20_KWORDER') == '1'
+        both = KWORDER
         cases = []
         maxlen = 12 if tier == 'quick' else 40
         reps = 5 if tier == 'quick' else 14
@@ -482,6 +629,9 @@ class C20:
             ops = self._history(rng, None, maxlen, both)
             cases.append(self.rerun({'ops': ops, 'tags': ['random']}))
         cases.extend(self._lazy_nameless_probes())
+        cases.extend(self._key_cases())
+        if INCLUDE_PENDING_FINDINGS:
+            cases.extend(self._pending_probes())
         return cases
 
     def _lazy_nameless_probes(self):
@@ -576,8 +726,146 @@ class C20:
             ops.append(['call', 0, x, rng.randint(0, 2)])
         return ops
 
+
+    def _pending_probes(self):
+        from datamatrix import functional as fnc
+        warnings.filterwarnings('ignore')
+        out = []
+
+        def probe(name, lazy, a, b, plain):
+            problem = None
+            try:
+                g = fnc.memoize(lambda x: ['r', plain(x)], lazy=lazy)
+                ra, rb = g(a), g(b)
+                if ra != ['r', plain(a() if lazy and callable(a) else a)] or rb != ['r', plain(b() if lazy and callable(b) else b)]:
+                    problem = 'two different argument lists share one key: the second call returned %r' % (rb,)
+            except Exception as e:      # noqa: BLE001
+                problem = 'raised %r' % (e,)
+            out.append({'input': {'probe': 'pending_' + name}, 'observed': {'problem': problem}, 'pyfail': problem,
+                        'oracle': 'true', 'model': 'true', 'nontrivial': True, 'sig': 'probe|pending|' + name,
+                        'tags': ['probe', 'probe:pending']})
+
+        probe('lone_surrogates', False, chr(0xd800) + chr(0xdc00), chr(0x10000), len)
+
+        def true():
+            return 'evaluated'
+        probe('callable_named_true', True, True, true, repr)
+        return out
+
+    # ---- key derivation cases ---------------------------------------------------
+    def _key_world(self):
+        from datamatrix import functional as fnc
+        warnings.filterwarnings('ignore')
+        w = World(None)
+        return w, fnc.memoize(w.body)
+
+    @staticmethod
+    def _key_forms(w):
+        out = []
+        for b in sorted(w.B):
+            forms = w.B[b]
+            for t in range(0, min(2, len(forms[0][0])) + 1):
+                for fi in range(len(forms)):
+                    out.append((b + 100 * t, fi))
+        return out
+
+    @staticmethod
+    def _memkey_of(g, a, k):
+        """(memkey, None) or (None, description of the exception): an exception is an observation, not a crash"""
+        try:
+            return g._memkey(*a, **k), None
+        except Exception as e:      # noqa: BLE001
+            return None, '%s: %s' % (type(e).__name__, e)
+
+    def _keypair_case(self, w, g, x, y, tags):
+        """L0 only: the implementation gives the forms x and y the same key iff they are the same argument list."""
+        (a, k), (a2, k2) = w.form(*x), w.form(*y)
+        mk, err = self._memkey_of(g, a, k)
+        mk2, err2 = self._memkey_of(g, a2, k2)
+        fl = {}
+        pyfail = None
+        if err or err2:
+            pyfail = 'deriving the key of an argument list of the alphabet raised %s' % (err or err2)
+        return {'input': {'keypair': [list(x), list(y)]}, 'observed': {'keys': [mk, mk2]}, 'pyfail': pyfail,
+                'oracle': '(key_pair_ok %s %s %s)' % (call_lit(a, k, False, fl), call_lit(a2, k2, False, fl),
+                                                      L.boolean(mk == mk2)),
+                'model': 'true', 'nontrivial': True, 'sig': 'keypair|%r|%r' % (x, y), 'tags': tags}
+
+    def _keytext_case(self, w, g, cls, fi):
+        """One form: L0 against form 0 of its class; L1 text against the text the implementation hashes."""
+        c = self._keypair_case(w, g, (cls, 0), (cls, fi), ['key', 'key:text'])
+        a, k = w.form(cls, fi)
+        mk = c['observed']['keys'][1]
+        name = getattr(g._fnc, '__name__', '?')
+        try:
+            text = prehash_text(g, a, k)
+            consistent = hashlib.md5(text.encode('utf-8')).hexdigest() == mk
+        except Exception as e:      # noqa: BLE001  (the accessor relies on the implementation's own serialisers)
+            text, consistent = None, False
+            c['observed']['accessor'] = '%s: %s' % (type(e).__name__, e)
+        if text is None or mk is None:
+            model = 'false'
+        else:
+            fl = {}
+            lit = call_lit(a, k, True, fl)
+            tab = L.lst('(%s, %s)' % (f, L.string(r)) for f, r in sorted(fl.items()))
+            inside = in_alphabet(name, a, k)
+            c['tags'] = c['tags'] + ['key:alphabet-in' if inside else 'key:alphabet-out']
+            model = '(andb %s (keytext_agrees %s %s %s %s %s))' % (
+                L.boolean(consistent), tab, L.string(name), lit, L.string(text), L.boolean(inside))
+        c['input'] = {'keytext': [cls, fi]}
+        c['observed']['text'] = text
+        c['model'] = model
+        c['sig'] = 'keytext|%d|%d' % (cls, fi)
+        return c
+
+    def _keymatrix_case(self, w, g):
+        """All pairs of forms at once (one Coq term): same key iff same argument list."""
+        ids, items, fl, errs = {}, [], {}, []
+        for cls, fi in self._key_forms(w):
+            a, k = w.form(cls, fi)
+            mk, err = self._memkey_of(g, a, k)
+            if err:
+                errs.append('class %d form %d: %s' % (cls, fi, err))
+                continue
+            items.append('(%s, %d)' % (call_lit(a, k, False, fl), ids.setdefault(mk, len(ids))))
+        return {'input': {'keymatrix': 'all'}, 'observed': {'forms': len(items), 'distinct_keys': len(ids)},
+                'pyfail': ('deriving the key raised: ' + '; '.join(errs[:3])) if errs else None,
+                'oracle': '(key_matrix_ok %s)' % L.lst(items), 'model': 'true', 'nontrivial': True,
+                'sig': 'keymatrix', 'tags': ['key', 'key:matrix']}
+
+    def _key_cases(self):
+        w, g = self._key_world()
+        cases = [self._keytext_case(w, g, cls, fi) for cls, fi in self._key_forms(w)]
+        cases.append(self._keymatrix_case(w, g))
+        return cases
+
+    def _key_rerun(self, inp):
+        w, g = self._key_world()
+        if 'keytext' in inp:
+            return self._keytext_case(w, g, inp['keytext'][0], inp['keytext'][1])
+        if 'keypair' in inp:
+            return self._keypair_case(w, g, tuple(inp['keypair'][0]), tuple(inp['keypair'][1]), ['key', 'key:pair'])
+        return self._keymatrix_case(w, g)
+
+    def _key_shrink(self, inp):
+        """a failing matrix: the pairs on which the implementation's keys and the harness' classes disagree"""
+        if 'keymatrix' not in inp:
+            return
+        w, g = self._key_world()
+        forms = self._key_forms(w)
+        keys = {f: self._memkey_of(g, *w.form(*f))[0] for f in forms}
+        for i, x in enumerate(forms):
+            for y in forms[i + 1:]:
+                if (keys[x] == keys[y]) != (x[0] == y[0]):
+                    yield {'keypair': [list(x), list(y)]}
+
     # ---- shrinking / identification -----------------------------------------
     def shrink_candidates(self, inp):
+        if 'keytext' in inp or 'keypair' in inp or 'keymatrix' in inp:
+            for c in self._key_shrink(inp):
+                yield c
+            return
         if 'probe' in inp:
             return
         ops = inp['ops']
@@ -596,6 +884,8 @@ class C20:
         import json
         if 'probe' in case['input']:
             return 'memoize probe ' + case['input']['probe']
+        if 'ops' not in case['input']:
+            return 'memoize key ' + json.dumps(case['input'], separators=(',', ':'), sort_keys=True)
         return 'memoize ' + json.dumps(case['input']['ops'], separators=(',', ':'), sort_keys=True)
 
 
